@@ -517,7 +517,7 @@ const C15_CONSTRUCTS: &[&str] = &[
   "interval+delay",
   "interval-merge-interval",
 ];
-const C15_ENDINGS: &[&str] = &["terminal", "unsubscribe", "take", "first", "take_until-timer", "amb-timer", "retry", "unsubscribe-early"];
+const C15_ENDINGS: &[&str] = &["terminal", "unsubscribe", "take", "first", "take_until-timer", "amb-timer", "retry", "unsubscribe-early", "unsubscribe-probes"];
 
 impl Family for C15 {
   fn name(&self) -> &'static str {
@@ -539,6 +539,8 @@ impl Family for C15 {
       ("unsub_ms", Json::Int(d * rng.range(0, 3) as i64 + *rng.pick(&[13i64, 57]))),
       ("repeats", Json::Int(if rng.below(6) == 0 { rng.range(2, 5) as i64 } else { 1 })),
       ("jitter", Json::Bool(rng.below(4) == 0)),
+      // for the ending "unsubscribe-probes": scheduling points the caller lets pass before it unsubscribes
+      ("unsub_probes", Json::Int(rng.below(25) as i64)),
     ])
   }
   fn knobs(&self, rng: &mut Rng, w: &Json, _tier: Tier) -> Json {
@@ -561,6 +563,7 @@ impl Family for C15 {
     let take = w.i("take");
     let unsub_ms = w.i("unsub_ms");
     let repeats = w.i("repeats");
+    let unsub_probes = w.i("unsub_probes").clamp(0, 60);
     let src_end = w.s("source_ending");
     if d < 10 || d > 1000 || n_items < 0 || n_items > 6 || gap < 1 || gap > 2000 || take < 1 || take > 6 || unsub_ms < 1 || unsub_ms > 5000 || repeats < 1 || repeats > 8 {
       return RunOut::invalid();
@@ -619,6 +622,7 @@ impl Family for C15 {
           }
           "unsubscribe" => need_unsub = Some(unsub_ms),
           "unsubscribe-early" => need_unsub = Some(0),
+          "unsubscribe-probes" => need_unsub = Some(-1),
           "take" => o = o.take(take as usize),
           "first" => o = o.first(),
           "take_until-timer" => o = o.take_until(observables::timer(ms(unsub_ms), sched())),
@@ -669,6 +673,11 @@ impl Family for C15 {
         if let Some(u) = need_unsub {
           if u > 0 {
             rt::thread::sleep(ms(u));
+          } else if u < 0 {
+            // a scheduler-chosen point while the subscription is still being set up on its workers
+            for _ in 0..unsub_probes {
+              rt::probe("c15-unsubscriber-wait");
+            }
           }
           sub.unsubscribe();
           mark_end();
